@@ -23,7 +23,7 @@ RULE = (
 ASSUMPTIONS = ["the capture helper and the uberjob call are on one source line (same f_lineno)", "depth limit read from uberjob._util.traceback.MAX_TRACEBACK_DEPTH"]
 
 MODNAMES = ["gen_builder", "uberjob_pipelines", "uberjobx.build", "my.uberjob.jobs", "__main__"]
-KINDS = ["unpack_nested_gather", "call_in_genexpr", "nested_callerror", "src_read_shared", "call", "gather_explicit", "gather_implicit", "unpack", "reg_write", "reg_readback", "src_read", "src_noreg", "mtime_stored", "mtime_source",
+KINDS = ["unpack_nested_gather", "call_in_genexpr", "nested_callerror", "src_read_shared", "call", "gather_explicit", "gather_implicit", "unpack", "reg_write", "reg_readback", "src_read", "src_noreg", "mtime_stored", "mtime_source", "mtime_unpack_item",
          "gather_nested_set", "gather_nested_dictkey", "gather_nested_implicit", "gather_nested_deep"]
 
 
@@ -42,7 +42,10 @@ def gen_cases(tier, seed):
                     "srcdir": r.choice(["/verif/scratch/gen", "/verif/scratch/gen", "/opt/team/lib/python3.12/site-packages/teamplans", "/usr/lib/python3/dist-packages/jobs",
                                         "/home/u/IPython-notebooks/core-plans", "/srv/app/lib/uberjob_plans"]),
                     "at_import": r.random() < 0.15,
-                    "modname": r.choice(MODNAMES)})  # __name__ of the user's builder module (nothing about uberjob may depend on it)  # run with registry.copy(): the copy must attribute failures to the same lines
+                    "modname": r.choice(MODNAMES)})
+    for i in range(max(6, n // 200)):
+        out.append({"seed": env.seed_for(seed, ID, tier, "concurrent_build", i), "kind": "concurrent_build", "n": 300, "depth": 0, "helper": False, "W": 1,
+                    "srcdir": "/verif/scratch/gen"})  # __name__ of the user's builder module (nothing about uberjob may depend on it)  # run with registry.copy(): the copy must attribute failures to the same lines
     return out
 
 
@@ -70,6 +73,8 @@ CREATE = {
     "src_noreg": "here('X'); s = registry.source(plan, K.Good()); K.out = s; K.use_registry = False",
     "mtime_stored": "here('X'); x = plan.call(K.ok)\n{ind}registry.add(x, K.BadMtime()); K.out = None",
     "mtime_source": "here('X'); s = registry.source(plan, K.BadMtime())\n{ind}y = plan.call(K.ident, s); K.out = y",
+    # the examined node is an ITEM of an unpack (one of the getitem calls it creates): its line is the unpack line
+    "mtime_unpack_item": "a = plan.call(K.mk2)\n{ind}here('X'); u = plan.unpack(a, 2)\n{ind}registry.add(u[1], K.BadMtime()); K.out = None",
 }
 
 
@@ -116,7 +121,83 @@ def same_frames(got, want):
     return len(got) == len(want) and all(g[1] == w[1] and g[2] == w[2] and g[0] in (w[0], w[3]) for g, w in zip(got, want))
 
 
+def run_concurrent_build(desc):
+    """Two threads add calls with structured arguments to ONE plan at the same time, each from its own source line: every call and every
+    gather call made for its arguments carries the line (and enclosing frames) of the thread that created it."""
+    import sys
+    import threading
+
+    import uberjob
+
+    src = ("def build_a(plan, a, out, n):\n"
+           "    for i in range(n):\n"
+           "        out.append(plan.call(len, [a, {a}, (i, a)]))\n"
+           "def build_b(plan, b, out, n):\n"
+           "    for i in range(n):\n"
+           "        out.append(plan.gather({'k': [b], 'i': i}))\n")
+    fname = f"{desc.get('srcdir', '/verif/scratch/gen')}/c19_conc_{desc['seed']}.py"
+    ns = {}
+    exec(compile(src, fname, "exec"), ns)
+    plan = uberjob.Plan()
+    a = plan.call(int)
+    b = plan.call(int)
+    outs = {"a": [], "b": []}
+    n = desc.get("n", 300)
+    start = threading.Barrier(2)
+    errs = []
+
+    def runner(tag, fn, node):
+        try:
+            start.wait(5)
+            fn(plan, node, outs[tag], n)
+        except BaseException as e:
+            errs.append(repr(e))
+
+    old = sys.getswitchinterval()
+    sys.setswitchinterval(1e-6)
+    try:
+        ts = [threading.Thread(target=runner, args=("a", ns["build_a"], a)), threading.Thread(target=runner, args=("b", ns["build_b"], b))]
+        for t_ in ts:
+            t_.start()
+        for t_ in ts:
+            t_.join(60)
+    finally:
+        sys.setswitchinterval(old)
+    if errs:
+        return {"status": "inconclusive", "detail": f"concurrent building raised {errs[0]}"}
+    want = {"a": ("build_a", 3), "b": ("build_b", 6)}
+    bad = None
+    checked = 0
+    for tag in ("a", "b"):
+        fn_name, line = want[tag]
+        for nd in outs[tag]:
+            # the node itself and every gather call upstream of it that this statement created
+            st = [nd]
+            seen = set()
+            while st and bad is None:
+                c = st.pop()
+                if id(c) in seen or c is a or c is b or not hasattr(c, "stack_frame"):
+                    continue
+                seen.add(id(c))
+                sf = c.stack_frame
+                checked += 1
+                if sf is None or (sf.name, sf.path, sf.line) != (fn_name, fname, line):
+                    got = None if sf is None else (sf.name, sf.path.split("/")[-1], sf.line)
+                    bad = (f"a {getattr(c.fn, '__name__', c.fn)} call created by thread {tag} on line {line} ({fn_name}) carries the call site {got}")
+                    break
+                st.extend(p_ for p_ in plan.graph.predecessors(c))
+            if bad:
+                break
+    res = {"status": "ok", "counters": {"cases": 1, "concurrent_build_cases": 1, "concurrent_build_calls_checked": checked}, "nontrivial": True,
+           "sets": {"kinds": ["concurrent_build"]}, "sig": f"conc|{desc['seed'] % 100000}"}
+    if bad:
+        res.update(status="violation", mechanism="attribution", detail=f"[two threads building on one plan] {bad}")
+    return res
+
+
 def run_case(desc):
+    if desc.get("kind") == "concurrent_build":
+        return run_concurrent_build(desc)
     import uberjob
     from uberjob import ValueStore
     from uberjob._util import traceback as ubt
@@ -262,7 +343,7 @@ def run_case(desc):
             sf = sf.outer
         expected_fn = {"unpack_nested_gather": "gather_set", "call_in_genexpr": "boom", "nested_callerror": "boom_callerror", "src_read_shared": "read", "gather_nested_set": "gather_set", "gather_nested_dictkey": "gather_dict", "gather_nested_implicit": "gather_set", "gather_nested_deep": "gather_set",
                        "call": "boom", "gather_explicit": "gather_set", "gather_implicit": "gather_set", "unpack": "unpack", "reg_write": "write",
-                       "reg_readback": "read", "src_read": "read", "src_noreg": "source", "mtime_stored": "ok", "mtime_source": "source"}[desc["kind"]]
+                       "reg_readback": "read", "src_read": "read", "src_noreg": "source", "mtime_stored": "ok", "mtime_source": "source", "mtime_unpack_item": "getitem"}[desc["kind"]]
         if getattr(call.fn, "__name__", None) != expected_fn:
             bad = f"CallError.call is a call to {getattr(call.fn, '__name__', call.fn)!r}, expected the failing {expected_fn!r} call"
         elif not same_frames(got, want):
